@@ -72,7 +72,10 @@ impl FromPreviousRecordImplsGenerator {
                     IntoKind::IntoSimple => "_",
                     IntoKind::IntoAndOut => "",
                 },
-                datum.name(),
+                match into_kind {
+                    IntoKind::IntoSimple => datum.name().trim_start_matches("r#"),
+                    IntoKind::IntoAndOut => datum.name(),
+                },
                 datum.details().type_name(),
                 datum.details().offset(),
             ));
